@@ -104,7 +104,9 @@ Clauses(e) ==
                     <<"complete-seat-threads", e.done.seats_done /\ ~e.done.seats_exc>>,
                     <<"complete-threads-when-run-returns", e.done.seats_done_at_return>>,
                     <<"clients-complete", ~e.done.clients_exc>> >>
-     IN IF AllFails(base) # "" \/ ~DecsComplete(e, Len(e.boards))
+     \* when every board was decided to its end the expected streams, log and
+     \* replicas are defined, whatever else went wrong
+     IN IF ~DecsComplete(e, Len(e.boards))
         THEN base \o << <<"complete-decisions", DecsComplete(e, Len(e.boards))>>,
                           \* C08: the log lists the configured boards - all of them
                           <<"log-lists-all-boards", e.file.present /\ e.file.json_ok
